@@ -327,6 +327,7 @@ class Canon(ast.NodeTransformer):
         self.numeric.append(nums)
         node = self.generic_visit(node)
         self.numeric.pop()
+        _loops_to_comprehensions(node)
         _inline_return_locals(node)
         _inline_single_use_defs(node)
         for a in node.args.posonlyargs + node.args.args + node.args.kwonlyargs:
@@ -377,6 +378,100 @@ class Canon(ast.NodeTransformer):
                 if isinstance(val.op, ast.Add) and isinstance(val.right, ast.Name) and val.right.id == name:
                     return ast.copy_location(ast.AugAssign(target=ast.Name(id=name, ctx=ast.Store()), op=val.op, value=val.left), node)
         return node
+
+
+def _loops_to_comprehensions(fn: ast.AST) -> None:
+    """`x = []` immediately followed by `for v in it: [if c:] x.append(E)` (nothing else in the loop, no else / break /
+    continue, x not read by it / c / E, the loop variables not used anywhere else in the function) is
+    `x = [E for v in it if c]`; likewise `set()` with `.add` and `{}` with `x[K] = V`"""
+    counts: Dict[str, int] = {}
+    for n in ast.walk(fn):
+        if isinstance(n, ast.Name):
+            counts[n.id] = counts.get(n.id, 0) + 1
+        elif isinstance(n, ast.arg):
+            counts[n.arg] = counts.get(n.arg, 0) + 1000
+        elif isinstance(n, (ast.Global, ast.Nonlocal)):
+            for name in n.names:
+                counts[name] = counts.get(name, 0) + 1000
+
+    def blocks(node):
+        for fname in ("body", "orelse", "finalbody"):
+            blk = getattr(node, fname, None)
+            if isinstance(blk, list) and blk and isinstance(blk[0], ast.stmt):
+                yield blk
+        for h in getattr(node, "handlers", []) or []:
+            yield h.body
+
+    def all_blocks(node):
+        for blk in blocks(node):
+            yield blk
+            for st in blk:
+                if not isinstance(st, (ast.FunctionDef, ast.AsyncFunctionDef, ast.ClassDef)):
+                    yield from all_blocks(st)
+
+    def kind_of(value):
+        if isinstance(value, ast.List) and not value.elts:
+            return "list"
+        if isinstance(value, ast.Dict) and not value.keys:
+            return "dict"
+        if isinstance(value, ast.Call) and isinstance(value.func, ast.Name) and value.func.id == "set" and not value.args and not value.keywords:
+            return "set"
+        return None
+
+    for blk in list(all_blocks(fn)):
+        i = 0
+        while i + 1 < len(blk):
+            first, loop = blk[i], blk[i + 1]
+            i += 1
+            if not (isinstance(first, ast.Assign) and len(first.targets) == 1 and isinstance(first.targets[0], ast.Name) and isinstance(loop, ast.For) and not loop.orelse):
+                continue
+            kind = kind_of(first.value)
+            if kind is None:
+                continue
+            name = first.targets[0].id
+            generators = []
+            cur: ast.stmt = loop
+            ok = True
+            while True:
+                if isinstance(cur, ast.For) and not cur.orelse and len(cur.body) == 1:
+                    generators.append(ast.comprehension(target=cur.target, iter=cur.iter, ifs=[], is_async=0))
+                    cur = cur.body[0]
+                elif isinstance(cur, ast.If) and not cur.orelse and len(cur.body) == 1 and generators:
+                    generators[-1].ifs.append(cur.test)
+                    cur = cur.body[0]
+                else:
+                    break
+            comp = None
+            if kind in ("list", "set") and isinstance(cur, ast.Expr) and isinstance(cur.value, ast.Call) and isinstance(cur.value.func, ast.Attribute) \
+                    and isinstance(cur.value.func.value, ast.Name) and cur.value.func.value.id == name and cur.value.func.attr == ("append" if kind == "list" else "add") \
+                    and len(cur.value.args) == 1 and not cur.value.keywords and not isinstance(cur.value.args[0], ast.Starred):
+                elt = cur.value.args[0]
+                comp = ast.ListComp(elt=elt, generators=generators) if kind == "list" else ast.SetComp(elt=elt, generators=generators)
+                inner = [elt]
+            elif kind == "dict" and isinstance(cur, ast.Assign) and len(cur.targets) == 1 and isinstance(cur.targets[0], ast.Subscript) \
+                    and isinstance(cur.targets[0].value, ast.Name) and cur.targets[0].value.id == name:
+                comp = ast.DictComp(key=cur.targets[0].slice, value=cur.value, generators=generators)
+                inner = [cur.targets[0].slice, cur.value]
+            if comp is None or not generators:
+                continue
+            parts = inner + [g.iter for g in generators] + [c for g in generators for c in g.ifs] + [g.target for g in generators]
+            if any(isinstance(x, ast.Name) and x.id == name for p_ in parts for x in ast.walk(p_)):
+                continue
+            if any(isinstance(x, (ast.Yield, ast.YieldFrom, ast.Await, ast.NamedExpr)) for p_ in parts for x in ast.walk(p_)):
+                continue
+            loopvars = {x.id for g in generators for x in ast.walk(g.target) if isinstance(x, ast.Name)}
+            if not all(isinstance(x, (ast.Name, ast.Tuple, ast.List)) for g in generators for x in [g.target]):
+                continue
+            inside: Dict[str, int] = {}
+            for x in ast.walk(loop):
+                if isinstance(x, ast.Name):
+                    inside[x.id] = inside.get(x.id, 0) + 1
+            if any(counts.get(v, 0) != inside.get(v, 0) for v in loopvars):
+                continue
+            first.value = ast.copy_location(comp, loop)
+            ast.fix_missing_locations(first)
+            del blk[i]
+            i -= 1
 
 
 def _inline_single_use_defs(fn: ast.AST) -> None:
